@@ -338,8 +338,8 @@ static void after_call(struct ep *x, int call, int kind, int err)
             else if (call == C_RECV) {
                 if (x->eof_seen)
                     ok = kind == K_EOF;
-                else
-                    ok = kind == K_EOF || kind == K_OK || (kind == K_ERR && err == EPIPE);
+                else        /* the close was reported by send/finish: drain (possibly waiting), then 0 - or nothing */
+                    ok = kind == K_EOF || kind == K_OK || kind == K_AGAIN || (kind == K_ERR && err == EPIPE);
             } else
                 ok = kind == K_OK || (kind == K_ERR && err == EPIPE);
         }
